@@ -606,20 +606,30 @@ fn comb(l: usize, n: usize) -> f64 {
 pub fn oracle_ratio_l<Q: Rep>(a: &Q, ba: f64, b: &Q, bb: f64, cutoffs: Option<(usize, usize)>) -> f64 {
     let (ca, cb) = (a.ops(), b.ops());
     let (na, nb) = (ca.len(), cb.len());
-    let mut r = (ba / bb).powi(nb as i32 - na as i32);
+    // an operator of weight exactly 0 under the receiving Hamiltonian: the ratio is 0, whatever the other factors
+    // overflow to in floating point
+    if cb.iter().any(|op| a.weight(op) == 0.0) || ca.iter().any(|op| b.weight(op) == 0.0) {
+        return 0.0;
+    }
+    // everything else in logarithms (no overflow / underflow of intermediate products)
+    let mut lr = (nb as f64 - na as f64) * (ba / bb).ln();
     for op in &cb {
         // W_a(C_b) / W_b(C_b)
-        r *= a.weight(op) / b.weight(op);
+        lr += (a.weight(op) / b.weight(op)).ln();
     }
     for op in &ca {
-        r *= b.weight(op) / a.weight(op);
+        lr += (b.weight(op) / a.weight(op)).ln();
     }
     if let Some((la, lb)) = cutoffs {
         if la != lb {
-            r *= comb(la, nb) * comb(lb, na) / (comb(la, na) * comb(lb, nb));
+            let c = comb(la, nb) * comb(lb, na) / (comb(la, na) * comb(lb, nb));
+            if c.is_nan() {
+                return f64::NAN;
+            }
+            lr += c.ln();
         }
     }
-    if r > 1.0 { 1.0 } else { r }
+    if lr >= 0.0 { 1.0 } else { lr.exp() }
 }
 
 /// Independent legality / bookkeeping check of one replica: every stored operator has a bond index
@@ -1247,6 +1257,76 @@ pub fn equilibrate_s<Q: Rep>(tc: &mut TC<Q>, g: &mut SplitMix64, safe: bool) -> 
     advance(tc, t, safe)
 }
 
+
+/// Floating-point overflow regime of `swap_on_chunks`: a freshly added, extremely cold replica (n = 0,
+/// beta = k * 2^50) next to a hot replica holding >= 24 operators: (beta_a/beta_b)^(n_b - n_a) is +inf in
+/// binary64. `zero = true`: the cold replica has NO longitudinal field while the hot string holds field
+/// operators, so the Hamiltonian factor is exactly 0 and the exact Metropolis ratio is 0 (inf * 0 = NaN in
+/// floating point; NaN > u is false: rejected, as it must be). `zero = false` (probe only): the cold
+/// replica's couplings are the hot ones times 2^-45 ("other energy unit", beta*J comparable): the exact
+/// ratio is >= 1 but the Hamiltonian factor underflows.
+pub fn overflow_ladder(g: &mut SplitMix64, zero: bool) -> Option<(Vec<(IsingQ, f64)>, usize)> {
+    let nvars = 3 + g.below(2) as usize;
+    let graph: Vec<(usize, usize)> = (0..nvars - 1).map(|i| (i, i + 1)).collect();
+    let js: Vec<f64> = graph.iter().map(|_| g.range(2, 6) as f64 / 4.0).collect();
+    let gamma = g.range(2, 5) as f64 / 4.0;
+    let hh = g.range(2, 6) as f64 / 4.0;
+    let hot = IsingSpec {
+        edges: graph.iter().zip(js.iter()).map(|(e, j)| (*e, *j)).collect(),
+        gamma,
+        h: hh,
+        beta: g.range(6, 10) as f64 / 4.0,
+        cutoff: 4,
+        heatbath: false,
+        rvb: false,
+        no_table: g.coin(),
+        tiny: false,
+    };
+    let sc = if zero { 1.0 } else { (2.0f64).powi(-45) };
+    let cold = IsingSpec {
+        edges: hot.edges.iter().map(|(e, j)| (*e, j * sc)).collect(),
+        gamma: gamma * sc,
+        h: if zero { 0.0 } else { hh * sc },
+        beta: (1 + g.below(3)) as f64 * (2.0f64).powi(50),
+        cutoff: 4,
+        heatbath: false,
+        rvb: false,
+        no_table: g.coin(),
+        tiny: false,
+    };
+    let mut qh = make_ising(&hot, g.next());
+    let ne = graph.len();
+    let mut ok = false;
+    for _ in 0..80 {
+        if catch(|| {
+            qh.timesteps(2, hot.beta);
+        })
+        .is_err()
+        {
+            return None;
+        }
+        let has_field = qh.ops().iter().any(|o| o.0 >= ne + nvars);
+        if qh.get_n() >= 24 && has_field {
+            ok = true;
+            break;
+        }
+    }
+    if !ok {
+        return None;
+    }
+    let qc = make_ising(&cold, g.next()); // fresh: no operators
+    let mut qh2 = make_ising(&hot, g.next());
+    let _ = catch(|| {
+        qh2.timesteps(30, hot.beta);
+    });
+    let (reps, cold_pos) = match g.below(3) {
+        0 => (vec![(qh, hot.beta), (qc, cold.beta)], 1),
+        1 => (vec![(qc, cold.beta), (qh, hot.beta)], 0),
+        _ => (vec![(qh, hot.beta), (qc, cold.beta), (qh2, hot.beta)], 1),
+    };
+    Some((reps, cold_pos))
+}
+
 pub fn mode_ising_steps(seed: u64, thorough: bool) {
     let mut g = SplitMix64::new(seed ^ 0x1005);
     let ladders = if thorough { 1400 } else { 280 };
@@ -1337,6 +1417,18 @@ pub fn mode_ising_steps(seed: u64, thorough: bool) {
                 continue;
             }
             let _ = step_case(&tc, g.next(), true, &mut hist_of(n));
+        }
+    }
+    // floating-point overflow regime with an exactly vanishing Hamiltonian factor (see `overflow_ladder`)
+    let ol = if thorough { 60 } else { 14 };
+    for _ in 0..ol {
+        if let Some((reps, _)) = overflow_ladder(&mut g, true) {
+            let n = reps.len();
+            let log = new_log();
+            if let Ok(tc) = build(reps, &log) {
+                stat("i.ladder_overflow_zero_factor", 1);
+                let _ = step_case(&tc, g.next(), true, &mut hist_of(n));
+            }
         }
     }
     // degenerate ladders: 0 and 1 replica (the serial step draws nothing, the rayon step draws the order word)
@@ -2015,6 +2107,21 @@ pub fn mode_generic_mixed(seed: u64, thorough: bool) {
     }
 }
 
+
+/// Probe (not part of the check): overflow regime in which the exact ratio is >= 1.
+pub fn mode_overflow_probe(seed: u64) {
+    let mut g = SplitMix64::new(seed ^ 0x0f10);
+    for _ in 0..6 {
+        if let Some((reps, _)) = overflow_ladder(&mut g, false) {
+            let n = reps.len();
+            let log = new_log();
+            if let Ok(tc) = build(reps, &log) {
+                let _ = step_case(&tc, g.next(), true, &mut hist_of(n));
+            }
+        }
+    }
+}
+
 #[allow(dead_code)]
 fn main() {
     quiet_panics();
@@ -2026,6 +2133,7 @@ fn main() {
             mode_generic_mixed(a.seed, a.thorough);
         }
         "gmixed" => mode_generic_mixed(a.seed, a.thorough),
+        "overflowprobe" => mode_overflow_probe(a.seed),
         "pairs" => mode_pairs(a.seed, a.thorough),
         "mismatch" => mode_mismatch(a.seed),
         "grow" => mode_grow(a.seed, a.thorough),
